@@ -510,3 +510,39 @@ def config_file_precedence(ctx, rule):
         ctx.ob(rule, init, line, 'the first existing pyplate.yaml of the search order is the one that is read', ok, fact=fact,
                why='the packaged default is last in the search order: taking the last hit ignores the user\'s configuration '
                    '(densities, storage units, precisions)', key='configuration file precedence')
+
+
+def no_identity_test_against_literals(ctx, rule, classes=None):
+    """`x is <literal>` / `x is not <literal>` for a number, string or tuple display asks whether two objects are the
+    same object.  A tuple display is a new object every time (the test is constant), equal strings and ints built at run
+    time are usually different objects: the branch taken does not depend on the value.  Only None, True, False and
+    Ellipsis are compared by identity."""
+    model = ctx.model
+    n = 0
+    bad = []
+    for fi in model.funcs.values():
+        if fi.mod.rel not in ('pyplate/pyplate.py', 'pyplate/slicer.py') or fi.parent is not None:
+            continue
+        if classes is not None and (fi.cls is None or fi.cls.name not in classes):
+            continue
+        for c in ast.walk(fi.node):
+            if not isinstance(c, ast.Compare):
+                continue
+            operands = [c.left] + list(c.comparators)
+            for i, op in enumerate(c.ops):
+                if not isinstance(op, (ast.Is, ast.IsNot)):
+                    continue
+                n += 1
+                for side in (operands[i], operands[i + 1]):
+                    lit = (isinstance(side, ast.Constant) and side.value is not None and side.value is not True and
+                           side.value is not False and side.value is not Ellipsis) or \
+                        isinstance(side, (ast.Tuple, ast.List, ast.Dict, ast.Set, ast.JoinedStr))
+                    if lit:
+                        bad.append((fi, c.lineno, ast.unparse(c)[:60]))
+    anchor = model.func('Container._transfer')
+    for fi, line, txt in bad:
+        ctx.ob(rule, fi, line, f"{fi.qualname}: values are compared by value", False, fact=txt,
+               why='identity of a literal is an accident of the interpreter (small ints, interned strings) or always false '
+                   '(a tuple display is a new object): the branch no longer depends on the value', key=f"identity test against a literal in {fi.qualname}")
+    ctx.ob(rule, anchor, anchor.node.lineno, 'no identity test against a number, string or display', not bad,
+           fact=f"{n} identity tests examined", why='see the reports', key='identity against literals', nontrivial=False)
